@@ -159,7 +159,8 @@ TIE_THEOREM = {"Secs": "secs_tie", "NoteDur": "noteDur_tie", "BpmDecode": "bpmDe
                "TsAt": ["tsAt_tie", "between_tie", "timeAdd_float_tie", "timeAdd_td_tie"],
                "BpmStep": ["bpmStep_tie", "tsLower_tie"],
                "Compose": ["buildFrom_eq_code", "tsAt_of_code", "C01_query_code", "C01_zero_code", "C11_hint_invariant_code", "C11_hint_reject_code",
-                           "query_errors_are_ValueError_code", "C12_mono_code", "C12_equal_code", "C12_strict_code"],
+                           "query_errors_are_ValueError_code", "C12_mono_code", "C12_equal_code", "C12_strict_code",
+                           "C15_negative_code", "C15_zero_bpm_code"],
                "ComposeInst": ["C04_table_code", "C04_first_forced_code", "C04_threshold_code", "C05_during_code"],
                "ComposeSync": ["C08_bpm_code", "C08_ts_lower_code"],
                "ComposeRate": ["C16_nonpositive_code", "C16_value_code"]}
